@@ -1026,6 +1026,7 @@ type Reader struct {
 	ctx             map[string]any
 	parentCtx       *map[string]any
 	headless        bool
+	err             error // first block decoding error (sticky)
 }
 
 type decodingTask struct {
@@ -1560,6 +1561,11 @@ func (this *Reader) Read(block []byte) (int, error) {
 		return 0, &IOError{msg: "Stream closed", code: kanzi.ERR_READ_FILE}
 	}
 
+	if this.err != nil {
+		// A block failed to decode: no data beyond it can be trusted
+		return 0, this.err
+	}
+
 	if err := this.readHeader(); err != nil {
 		return 0, err
 	}
@@ -1595,6 +1601,10 @@ func (this *Reader) Read(block []byte) (int, error) {
 			var err error
 
 			if this.available, err = this.processBlock(); err != nil {
+				// Discard partially decoded data, remember the error
+				this.available = 0
+				this.consumed = 0
+				this.err = err
 				return len(block) - remaining, err
 			}
 
